@@ -26,7 +26,7 @@ ASSUMPTIONS = [
     "relaxed forms use field names unique across nesting levels (the relaxed form is ambiguous otherwise)",
 ]
 MIN_MONITORS = {"wire": 12000, "roundtrip": 12000, "length-in-set": 12000, "header": 2000, "oor": 1500, "omit": 1500,
-                "relaxed": 2500, "after-rejection": 4000, "bitio-write": 200000, "bitio-finish": 20000, "bitio-read": 100000}
+                "relaxed": 2500, "after-rejection": 4000, "result-mutated": 3000, "bitio-write": 200000, "bitio-finish": 20000, "bitio-read": 100000}
 THOROUGH_MIN_SCALE = 8
 
 
@@ -74,6 +74,15 @@ def check_value(ctx, pydsdl, cd, objs, idx, cv, vseed, case):
     rt = pydsdl.deserialize(T, got)
     if not RC.same_value(rt, cv):
         ctx.violation("C06/roundtrip", "deserialize(serialize(v)) = %r for v = %r (%s)" % (rt, cv, T), case)
+    if rng.random() < 0.2:
+        # the caller changes the object it received in place; what the library returns and writes afterwards is unaffected
+        ctx.mon("result-mutated")
+        GV.scramble(rt, rng)
+        n_ = [0]
+        again, wrote, wrote_omitted = pydsdl.deserialize(T, got), pydsdl.serialize(T, cv), pydsdl.serialize(T, GV.spell_omit(rng, cd, idx, cv, n_))
+        if not RC.same_value(again, cv) or wrote != rep or wrote_omitted != rep:
+            ctx.violation("C06/state-after-mutation", "after the caller changed a deserialized object of %s in place: the same bytes read as %r (expected %r), the value is written as %s / with defaults omitted as %s (expected %s)" % (
+                T, again, cv, wrote.hex(), wrote_omitted.hex(), rep.hex()), case)
     ctx.mon("length-in-set")
     bls = T.inner_type.bit_length_set if isinstance(T, pydsdl.DelimitedType) else T.bit_length_set
     ok, how = blscmp.member(ctx, bls, 8 * len(got))
